@@ -67,7 +67,9 @@ def unit_c07_sweep():
         logging.getLogger("cutplace").setLevel(logging.CRITICAL)
         tmp = tempfile.mkdtemp(prefix="vf_c07_")
         try:
-            def cid_text(h): return "d,format,delimited\nd,header,%d\nf,id,,,,Integer\nf,name\n" % h
+            def cid_text(h, fixed=False):
+                if fixed: return "d,format,fixed\nd,line delimiter,none\nd,header,%d\nf,id,,,1,Integer\nf,name,,,2\n" % h      # records follow each other without delimiter
+                return "d,format,delimited\nd,header,%d\nf,id,,,,Integer\nf,name\n" % h
             def cases():
                 for h in range(0, 4):
                     for n in range(0, 5):
@@ -102,6 +104,12 @@ def unit_c07_sweep():
                         want2 = ["E" if isinstance(x, tuple) else x for x in want]
                         if got2 != want2: return {"expected": "pass %d over the same Reader: %r" % (attempt, want2), "observed": got2}
                     rd.close()
+                # the same window for fixed-width data without line delimiter (header rows are records there, too)
+                if not blank:
+                    ftext = "".join(r[0] + r[1] for r in rows)
+                    outf = list(validio.rows(interface.create_cid_from_string(cid_text(h, True)), io.StringIO(ftext), on_error="yield", validate_until=u))
+                    gotf = [("E", x.location.line + 1) if isinstance(x, errors.DataError) else x for x in outf]
+                    if gotf != want: return {"expected": "fixed / line delimiter none: %r" % (want,), "observed": gotf}
                 # validate-only API
                 cid = interface.create_cid_from_string(cid_text(h))
                 try: validio.validate(cid, io.StringIO(text), validate_until=u); v_obs = False
@@ -121,7 +129,7 @@ def unit_c07_sweep():
                         if rc != (1 if reported else 0): return {"expected": "--until -1 behaves like no limit", "observed": "exit %r" % rc}
                 return None
             return [sweep("C07/sweep/header and limit window through rows(), validate() and --until", cases(), check, "bounded",
-                          "header 0-3 x tables of 0-4 rows x a single bad row (a bad cell, or a blank line) at every position (or none) x limit in {none, 0..rows+1} x both APIs; command line --until on every 3rd case and every --until 0 case (all in thorough)",
+                          "header 0-3 x tables of 0-4 rows x a single bad row (a bad cell, or a blank line) at every position (or none) x limit in {none, 0..rows+1} x both APIs (and fixed-width data without line delimiter); command line --until on every 3rd case and every --until 0 case (all in thorough)",
                           describe=lambda c: {"header": c[0], "rows": c[1], "bad_row": abs(c[2]) if c[2] else None, "bad_row_is_a_blank_line": bool(c[2] and c[2] < 0), "validate_until": c[3]}, function="validio.rows / validio.validate / applications.main", unit="C07.sweep")]
         finally:
             shutil.rmtree(tmp, ignore_errors=True)
@@ -295,6 +303,22 @@ def unit_c18_table():
             r1 = sweep("C18/table/exit codes through main()", cases(), check, "bounded",
                        "CID in {valid, rejected, missing} x every list of 0-3 data files over {accepted, rejected by a field, rejected by IsUnique, rejected only by the end-of-data DistinctCount check, sharing keys with a sibling, missing, directory} in every order x --until in {absent, -1, 0, 1}",
                        describe=lambda c: {"cid": c[0], "files": c[1], "until": c[2]}, function="applications.main", unit="C18.table")
+            # unreadable data files under the spreadsheet formats (ods: recorded finding K-7, see the witness unit)
+            xcid = w("xcid.csv", "d,format,excel\nf,id,,,,Integer\nf,name\n")
+            import xlsxwriter
+            good_x = os.path.join(tmp, "good.xlsx"); wb = xlsxwriter.Workbook(good_x); ws = wb.add_worksheet(); ws.write_string(0, 0, "1"); ws.write_string(0, 1, "x"); wb.close()
+            os.mkdir(os.path.join(tmp, "dir.xlsx"))
+            def xcases():
+                for fl in (["good"], ["missing"], ["directory"], ["good", "missing"], ["good", "directory"], ["directory", "good"]): yield fl
+            def xcheck(fl):
+                paths = {"good": good_x, "missing": os.path.join(tmp, "nofile.xlsx"), "directory": os.path.join(tmp, "dir.xlsx")}
+                with contextlib.redirect_stderr(io.StringIO()):
+                    try: rc = applications.main(["cutplace", xcid] + [paths[f] for f in fl])
+                    except SystemExit as e: rc = ("exit", e.code)
+                want = 3 if any(f != "good" for f in fl) else 0
+                return None if rc == want else {"expected": "exit %d" % want, "observed": "exit %r" % (rc,)}
+            r3 = sweep("C18/table/a named Excel data file that cannot be read exits with 3", xcases(), xcheck, "bounded", "Excel CID x 6 file lists over {readable workbook, missing file, directory}", describe=lambda c: {"files": c},
+                       function="applications.main + rowio.excel_rows", unit="C18.table")
             def argcases():
                 yield ["cutplace"]; yield ["cutplace", "--nonsense"]; yield ["cutplace", "--until", "-2", cids["valid"]]; yield ["cutplace", "--until", "x", cids["valid"]]
             def argcheck(argv):
@@ -303,7 +327,7 @@ def unit_c18_table():
                     except SystemExit as e: rc = ("exit", e.code)
                 return None if rc == ("exit", 2) else {"expected": "argument error, exit code 2", "observed": repr(rc)}
             r2 = sweep("C18/table/unusable arguments exit with 2", argcases(), argcheck, "bounded", "4 unusable argument lists", function="applications.main", unit="C18.table")
-            return [r1, r2]
+            return [r1, r2, r3]
         finally:
             shutil.rmtree(tmp, ignore_errors=True)
     return NativeUnit("C18.table", "bounded end-to-end table of exit codes through applications.main (in-process)", ["C18"], run, kind="bounded")
